@@ -100,6 +100,8 @@ type scenario struct {
 	MaxSteps  int
 	MaxRound  uint64
 	Crash     map[int]time.Duration // honest id -> time after which it stops (crash-silent), pre-GST only
+	SlowFloor bool // before stabilisation every message takes between 80% and 100% of PreGSTMaxDelay (a uniformly slow network)
+	Late      int  // honest id that starts the instance only long after stabilisation (0 = nobody)
 	Isolate   bool // the network (adversarial scheduler) holds back every honest message addressed to the relabelling victim for a long time
 	Partial   bool // every message travels as a partial message (announced value key), is partially validated on arrival and completed with its chain (production path of pmsg)
 }
@@ -276,6 +278,9 @@ func (w *world) deliverAt() (time.Time, bool) {
 			return w.now.Add(time.Duration(w.rng.Int63n(int64(bound)))), true
 		}
 		at := w.now.Add(time.Duration(w.rng.Int63n(int64(sc.PreGSTMaxDelay))))
+		if sc.SlowFloor {
+			at = w.now.Add(sc.PreGSTMaxDelay*4/5 + time.Duration(w.rng.Int63n(int64(sc.PreGSTMaxDelay/5))))
+		}
 		if lim := gst.Add(time.Duration(w.rng.Int63n(int64(bound)))); at.After(lim) {
 			at = lim
 		}
@@ -295,6 +300,11 @@ func (w *world) broadcast(from int, m *gpbft.GMessage, byz bool) {
 		at, ok := w.deliverAt()
 		if !ok {
 			continue
+		}
+		if w.sc.SlowFloor && !w.postGST() && w.now.Before(w.t0.Add(time.Second)) && 2*w.honestIndex(id) < len(w.honest) {
+			// uniformly slow network, except that in the very first second half of the honest members hear everybody: they leave QUALITY with
+			// the quorum-backed proposal, the others with the base -- views stay apart, rounds fail until the time-outs outgrow the delay
+			at = w.now.Add(10 * time.Millisecond)
 		}
 		if w.sc.Isolate && !byz && id == w.victim() && from != id {
 			at = at.Add(40 * time.Second) // delayed, not lost
@@ -710,6 +720,12 @@ func (w *world) knownChains() []*gpbft.ECChain {
 			for _, p := range c.AllPrefixes() {
 				add(p)
 			}
+			// a chain with the right base that no honest participant proposes (the adversary may vote for anything it can sign)
+			if b := w.tsByKey[string(c.Base().Key)]; b >= 0 {
+				add(w.chainOf([]int{b, 9000 + b}))
+				// ... and a chain with a foreign base (valid for the validator, refused by the late-binding check of the instance)
+				add(w.chainOf([]int{7000 + b, 7500 + b}))
+			}
 		}
 	}
 	return out
@@ -786,6 +802,15 @@ func (w *world) byzStep() {
 // relabelStep (partial mode): the adversary re-announces a vote it has observed (any sender's, unchanged bytes and signature) under
 // the key of another chain, to one fixed victim, right after the victim has partially validated the genuine partial message whose
 // chain "has not been discovered yet". Only observed signatures are used. A correct validator refuses the re-announced message.
+func (w *world) honestIndex(id int) int {
+	for k, h := range w.honest {
+		if h == id {
+			return k
+		}
+	}
+	return len(w.honest)
+}
+
 func (w *world) victim() int { return w.honest[int(w.sc.MaxSteps+len(w.sc.Inputs))%len(w.honest)] }
 
 func (w *world) relabelStep() bool {
@@ -873,6 +898,9 @@ func (w *world) start() {
 		when := w.now
 		if w.sc.Stagger > 0 {
 			when = w.now.Add(time.Duration(w.rng.Int63n(int64(w.sc.Stagger))))
+		}
+		if w.sc.Late == id && w.sc.GST > 0 {
+			when = w.t0.Add(w.sc.GST + 40*time.Second)
 		}
 		if err := w.parts[id].StartInstanceAt(0, when); err != nil {
 			panic(err)
